@@ -333,6 +333,10 @@ var sharedPool = []sharedRule{
 	{"glob-keyed-by-prefix", func(c *Ctx, r string) { checkGlobKeyedByPrefix(c, r) }},
 	{"drop-deletes-what-it-lists", func(c *Ctx, r string) { checkDropDeletesWhatItLists(c, r) }},
 	{"commit-worker-always-reports", func(c *Ctx, r string) { checkCommitWorkerAlwaysReports(c, r) }},
+	{"writer-fresh-per-put", func(c *Ctx, r string) { checkWriterFreshPerPut(c, r) }},
+	{"leaf-pool-per-fs", func(c *Ctx, r string) { checkLeafPoolPerFs(c, r) }},
+	{"populate-txns-once", func(c *Ctx, r string) { checkPopulateTxnsOnce(c, r) }},
+	{"single-file-name-as-given", func(c *Ctx, r string) { checkSingleFileNameAsGiven(c, r) }},
 	{"writer-buf-leaf-sized", func(c *Ctx, r string) { checkWriterBufIsLeafSized(c, r) }},
 	{"glob-cache-writers", func(c *Ctx, r string) { checkGlobCacheWriters(c, r) }},
 	{"nothing-deleted-after-repo-descriptor", func(c *Ctx, r string) { checkNothingDeletedAfterRepoDescriptor(c, r) }},
